@@ -82,7 +82,10 @@ class IfPass(AbstractPass):
             test_case,
             tmp_file.name,
         ]
-        _stdout, _stderr, returncode = process_event_notifier.run_process(cmd)
+        try:
+            _stdout, _stderr, returncode = process_event_notifier.run_process(cmd)
+        finally:
+            os.unlink(tmp_file.name)
         if returncode != 0:
             return (PassResult.ERROR, state)
         else:
